@@ -59,6 +59,14 @@ CLAIMS = {
             "hostportjoin/split round trip.",
             "alphabet-bounded (whole-URI strings through urllib are not decidable symbolically here); reference composer in the harness; urllib.parse trusted",
             TECH_E1 + " (components by symbolic index: bounded alphabet)", "DESIGN.md 5 C16"),
+    "C17": ("Sites built from two registrations chosen by symbolic index (resources and two kinds of nested sites - one with a further "
+            "nested site - at 8 paths sharing prefixes, with empty components and a root resource), optionally followed by removal or "
+            "replacement of either, answer requests for 16 paths through the real Site.render_to_pipe exactly as a reference router "
+            "predicts (handling resource, remaining path seen by the handler, reconstructed original URI, 4.04 otherwise). The "
+            "/.well-known/core listing and 22 single-parameter filter queries (exact/prefix on rt, if, ct, href, unknown keys) over "
+            "6 registration subsets with removals equal a reference computed from the registration list.",
+            "pipe-level driver; layouts documented as unsupported excluded; one filter parameter per query (RFC 6690 4.1)",
+            TECH_E1 + " (registrations and paths by symbolic index)", "DESIGN.md 5 C17"),
     "C18": ("Two stacks S on one virtual-time loop; the first is put into one of 11 busy scenarios (CON awaiting ACK, awaiting "
             "separate response, block-wise upload, client observation, slow server handler with pending empty-ACK timer, registered "
             "observer, NSTART backlog, live deduplication entries, combinations) and shut down at a symbolic instant in [0,7000] "
